@@ -25,16 +25,19 @@ const (
 	modelLimit = 1 << 25  // slice elements: above this the model answers "alloc" and the case goes to a child
 	childAS    = 3 << 30  // address space of a child
 	memBound   = 64 << 20 // oracle: 64·|b| + 64 MiB
+
+	childTimeout = 5 * time.Second
 )
 
 type env struct {
-	o       *h.Opts
-	r       *h.Result
-	d       *h.Driver
-	rnd     *h.Rand
-	targets []codecx.Target
-	byName  map[string]int
-	child   int
+	o         *h.Opts
+	r         *h.Result
+	d         *h.Driver
+	rnd       *h.Rand
+	targets   []codecx.Target
+	byName    map[string]int
+	child     int
+	randChild int
 }
 
 // classify maps a failure of the real decoder to a finding signature: a narrow predicate on the kind of
@@ -55,6 +58,9 @@ func classify(res, stack string) string {
 	case "fail hang":
 		if inSplit {
 			return "C02.variant-dims-overflow"
+		}
+		if inVariant && strings.Contains(stack, "reflect.MakeSlice") || inVariant && strings.Contains(stack, "decodeValue") {
+			return "C02.variant-array-amplification" // 65535 elements per 5 bytes, nested: time as well as memory
 		}
 	case "fail stack-overflow":
 		return "C02.unbounded-nesting"
@@ -107,10 +113,18 @@ func (e *env) run(family string, ti int, in codecx.Input) {
 		pred = e.d.Ask(fmt.Sprintf("dec %d %d %s %s", fuel, modelLimit, t.Ty, hexIn))
 	}
 	risky := pred == "fail diverge" || pred == "fail depth" || pred == "fail alloc" || (e.d == nil && strings.HasPrefix(family, "risky"))
+	if risky && !strings.HasPrefix(family, "risky") && family != "corpus" && family != "replay" {
+		// randomly generated cases that need a child process: a bounded number per run (each costs up to the timeout)
+		if e.randChild >= e.o.N(40, 1500) {
+			e.r.Hit("skipped:child-budget")
+			return
+		}
+		e.randChild++
+	}
 	var o codecx.Outcome
 	if risky {
 		e.child++
-		o = codecx.DecodeInChild(ti, in, childAS, 8*time.Second)
+		o = codecx.DecodeInChild(ti, in, childAS, childTimeout)
 		e.r.Hit("ran:child")
 	} else {
 		b := in.Bytes()
@@ -122,7 +136,7 @@ func (e *env) run(family string, ti int, in codecx.Input) {
 		e.r.Hit("ran:in-process")
 		if o.Res == "fail hang" || o.Res == "fail memory" {
 			// the goroutine cannot be stopped: classify in a child (for the stack), report and stop the run
-			o2 := codecx.DecodeInChild(ti, in, childAS, 8*time.Second)
+			o2 := codecx.DecodeInChild(ti, in, childAS, childTimeout)
 			e.judge(c, pred, o2, len(b), family)
 			e.r.Notes = append(e.r.Notes, "run stopped early: an in-process Decode did not return: "+trunc(c, 200))
 			e.r.Write(e.o.Out)
@@ -130,7 +144,7 @@ func (e *env) run(family string, ti int, in codecx.Input) {
 		}
 		if o.Alloc > uint64(64*len(b)+memBound) && strings.HasPrefix(o.Res, "fail err") || o.Alloc > uint64(64*len(b)+memBound) && strings.HasPrefix(o.Res, "ok") {
 			// too much memory for this input although it returned: get the allocation site from a child with a small limit
-			o2 := codecx.DecodeInChild(ti, in, 1200<<20, 8*time.Second)
+			o2 := codecx.DecodeInChild(ti, in, 1200<<20, childTimeout)
 			if o2.Res == "fail oom" {
 				o.Stack = o2.Stack
 			}
@@ -225,9 +239,15 @@ func (e *env) directed() {
 	// dimension products that wrap around in int32
 	e.run("risky:dims-wrap", v, un("c60100000007000000020000008"+"13d660081020000"))
 	e.run("dims-wrap", v, un("c30b0000000102030405060708090a0b020000000300000059555555"))
-	for _, n := range []uint32{1, 2, 3, 4, 5, 7, 11, 12, 30} {
-		for _, dims := range codecx.WrapDims(e.rnd, n) {
-			e.run("risky:dims-wrap", v, codecx.Plain(codecx.VariantHeader(0xc3, n, rep(7, int(n)), dims, true)))
+	ns := []uint32{2, 12}
+	if e.o.Thorough() {
+		ns = []uint32{1, 2, 3, 4, 5, 7, 11, 12, 30, 200, 65535}
+	}
+	for _, n := range ns {
+		for k, dims := range codecx.WrapDims(e.rnd, n) {
+			if k < e.o.N(2, 8) {
+				e.run("risky:dims-wrap", v, codecx.Plain(codecx.VariantHeader(0xc3, n, rep(7, int(n)), dims, true)))
+			}
 		}
 	}
 	// empty array with huge dimensions whose product wraps to 0: split's else-branch
@@ -251,9 +271,9 @@ func (e *env) directed() {
 		e.run("nesting", e.target("*ua.DiagnosticInfo"), codecx.Input{Unit: []byte{0x40}, Count: n, Suffix: []byte{0x00}})
 		e.run("nesting", e.target("*ua.DataValue"), codecx.Input{Unit: []byte{0x01, 0x17}, Count: n, Suffix: []byte{0x00}})
 	}
-	e.run("risky:nesting", v, codecx.Input{Unit: []byte{0x18}, Count: 3000000})
-	e.run("risky:nesting", e.target("*ua.DiagnosticInfo"), codecx.Input{Unit: []byte{0x40}, Count: 3000000})
-	e.run("risky:nesting", e.target("*ua.DataValue"), codecx.Input{Unit: []byte{0x01, 0x17}, Count: 1500000})
+	e.run("risky:nesting", v, codecx.Input{Unit: []byte{0x18}, Count: 800000})
+	e.run("risky:nesting", e.target("*ua.DiagnosticInfo"), codecx.Input{Unit: []byte{0x40}, Count: 800000})
+	e.run("risky:nesting", e.target("*ua.DataValue"), codecx.Input{Unit: []byte{0x01, 0x17}, Count: 400000})
 }
 
 // hostile Variant headers: every type id x array flags x hostile lengths
@@ -292,7 +312,7 @@ func (e *env) variantGrid() {
 
 // mutations of valid encodings of every kind of type
 func (e *env) mutations(g *codecx.Gen) {
-	n := e.o.N(5000, 400000)
+	n := e.o.N(3000, 400000)
 	for i := 0; i < n; i++ {
 		ti := e.rnd.Intn(len(e.targets))
 		if e.rnd.Chance(40) {
@@ -386,11 +406,16 @@ func main() {
 		r.Write(o.Out)
 		return
 	}
-	e.corpus()
-	e.directed()
-	e.variantGrid()
-	e.mutations(g)
-	e.random()
-	r.Notes = append(r.Notes, fmt.Sprintf("%d cases ran in a child process (address space %d MiB, max stack 64 MiB, timeout 8 s)", e.child, childAS>>20))
+	t0 := time.Now()
+	phase := func(name string, f func()) {
+		f()
+		r.Notes = append(r.Notes, fmt.Sprintf("phase %s done at %.1fs", name, time.Since(t0).Seconds()))
+	}
+	phase("corpus", e.corpus)
+	phase("directed", e.directed)
+	phase("variant-grid", e.variantGrid)
+	phase("mutations", func() { e.mutations(g) })
+	phase("random", e.random)
+	r.Notes = append(r.Notes, fmt.Sprintf("%d cases ran in a child process (address space %d MiB, max stack 16 MiB, resident set 500 MiB, timeout 5 s)", e.child, childAS>>20))
 	r.Write(o.Out)
 }
